@@ -1866,6 +1866,8 @@ TARGETS = [
     ("src/bits.rs", UINT_IMPL, "rotate_left", "U.rotate_left", "g_rotate_left", "uint"),
     ("src/bits.rs", UINT_IMPL, "rotate_right", "U.rotate_right", "g_rotate_right", "uint"),
     ("src/special.rs", UINT_IMPL, "is_power_of_two", "U.is_power_of_two", "g_is_power_of_two", "uint"),
+    ("src/special.rs", UINT_IMPL, "checked_next_power_of_two", "U.checked_next_power_of_two", "g_checked_next_power_of_two", "uint"),
+    ("src/special.rs", UINT_IMPL, "next_power_of_two", "U.next_power_of_two", "g_next_power_of_two", "uint"),
     ("src/cmp.rs", "Ord for Uint<BITS, LIMBS>", "cmp", "U.cmp", "g_cmp", "uint"),
     ("src/div.rs", UINT_IMPL, "div_rem", "U.div_rem", "g_div_rem", "uint"),
     ("src/div.rs", UINT_IMPL, "wrapping_div", "U.wrapping_div", "g_wrapping_div", "uint"),
